@@ -165,11 +165,11 @@ def run(ctx):
               "scipy Rotation contracts (C17)", "spec/nav_ode.py, spec/wgs84.py, spec/frames.py", "sympy, field normal form")
     ctx.assume("interpolation error of the real splines shrinks with the sampling interval (analysis theorem, not checked; stand-in only)",
                "the two increment series are truncated at 4th order in the rotation vector (declared)", "|lat| < 90, |pitch| < 90 deg")
-    _rate(ctx, py)
-    _increment_series(ctx, py)
-    _increment_glue(ctx, py)
-    _schema(ctx, py)
-    _standin(ctx, py)
+    ctx.guard(_rate, ctx, py)
+    ctx.guard(_increment_series, ctx, py)
+    ctx.guard(_increment_glue, ctx, py)
+    ctx.guard(_schema, ctx, py)
+    ctx.guard(_standin, ctx, py)
 
 
 # ---------------------------------------------------------------------------------------------
